@@ -128,4 +128,10 @@ theorem decSizer_le_guard (e : Endian) (p : Prim) (shift : Nat) (data : Bytes) (
         injection h with h1 h2
         omega
 
+/-- the bound of `decSizer_le_guard` is tight and is a bound on the element count, not on the raw counter (repair D141):
+    with `shift = 2` the raw counter 65538 gives 65536 elements, 65539 is refused by the guard, 1 is below the shift -/
+example : (match decSizer .little .u32 2 [2, 0, 1, 0] 0 with | .ok (c, sz) => c == 65536 && sz == 4 | _ => false) = true := by decide
+example : (match decSizer .little .u32 2 [3, 0, 1, 0] 0 with | .error .prophy => true | _ => false) = true := by decide
+example : (match decSizer .little .u32 2 [1, 0, 0, 0] 0 with | .error .prophy => true | _ => false) = true := by decide
+
 end Prophy.Py
